@@ -73,3 +73,62 @@ void h_apsp(void)
     VERIF_CANARY;
 }
 #endif
+
+/* ------------------------------------------------------------ ConstrainedFDLayout::computePathLengths: loop-body fragments (unbounded) */
+#if defined(JOB_cpl_lengths) || defined(JOB_cpl_pair)
+#undef DMAX
+#ifndef CPL_INT
+#undef double            /* the real double code */
+#define DBLMAX 1.7976931348623157e308
+static unsigned long long bits(double d) { union { double d; unsigned long long u; } c; c.d = d; return c.u; }
+#else                    /* scaled-integer mode for the one clause that multiplies (DESIGN 3) */
+#define DBLMAX 9223372036854775807LL
+#define bits(x) (x)
+#undef IS_NAN
+#define IS_NAN(x) 0
+#endif
+#endif
+#if defined(JOB_cpl_lengths)
+/* "non-positive edge lengths replaced by 1 as documented": body of the first loop, for ONE arbitrary index */
+void w_cpl_lengths_body(void *eLengths, size_t i)
+__CPROVER_requires(__CPROVER_is_fresh(eLengths, sizeof(struct valarr)))
+__CPROVER_requires(((struct valarr *)eLengths)->n >= 1 && ((struct valarr *)eLengths)->n <= 1000000 && i < ((struct valarr *)eLengths)->n)
+__CPROVER_requires(__CPROVER_is_fresh(((struct valarr *)eLengths)->d, ((struct valarr *)eLengths)->n * sizeof(double)))
+__CPROVER_ensures(__CPROVER_old(((double *)((struct valarr *)eLengths)->d)[i]) <= 0.0 ==> ((double *)((struct valarr *)eLengths)->d)[i] == 1.0)
+__CPROVER_ensures(!(__CPROVER_old(((double *)((struct valarr *)eLengths)->d)[i]) <= 0.0) ==>
+                  bits(((double *)((struct valarr *)eLengths)->d)[i]) == bits(__CPROVER_old(((double *)((struct valarr *)eLengths)->d)[i])))
+__CPROVER_assigns(((double *)((struct valarr *)eLengths)->d)[i])
+;
+void h_cpl_lengths(void) { void *e; size_t i; w_cpl_lengths_body(e, i); VERIF_CANARY; }
+#endif
+#if defined(JOB_cpl_pair)
+/* the ideal-distance matrix: body of the post-processing loop nest for ONE pair (i,j):
+ * off the diagonal, a reachable pair's distance is idealLength times the path length and is marked 2, an unreachable pair
+ * keeps the sentinel and is marked 0; the diagonal is untouched */
+struct PACKED FD { unsigned n; double **D; unsigned short **G; double minD; double m_idealEdgeLength; };
+#define L(p) ((struct FD *)(p))
+void w_cpl_pair_body(void *layout, unsigned i, unsigned j)
+__CPROVER_requires(__CPROVER_is_fresh(layout, sizeof(struct FD)))
+__CPROVER_requires(L(layout)->n >= 1 && L(layout)->n <= 4 && i < L(layout)->n && j < L(layout)->n)
+__CPROVER_requires(__CPROVER_is_fresh(L(layout)->D, L(layout)->n * sizeof(double *)) && __CPROVER_is_fresh(L(layout)->G, L(layout)->n * sizeof(unsigned short *)))
+__CPROVER_requires(__CPROVER_is_fresh(L(layout)->D[i], L(layout)->n * sizeof(double)) && __CPROVER_is_fresh(L(layout)->G[i], L(layout)->n * sizeof(unsigned short)))
+__CPROVER_requires(!IS_NAN(L(layout)->D[i][j]) && !IS_NAN(L(layout)->m_idealEdgeLength) && !IS_NAN(L(layout)->minD))
+__CPROVER_ensures(i == j ==> (bits(L(layout)->D[i][j]) == bits(__CPROVER_old(L(layout)->D[i][j])) && L(layout)->G[i][j] == __CPROVER_old(L(layout)->G[i][j])))
+__CPROVER_ensures((i != j && __CPROVER_old(L(layout)->D[i][j]) == DBLMAX) ==> (L(layout)->D[i][j] == DBLMAX && L(layout)->G[i][j] == 0))
+#ifdef CPL_INT
+__CPROVER_requires(L(layout)->D[i][j] == DBLMAX || (L(layout)->D[i][j] >= 0 && L(layout)->D[i][j] <= CPL_BOUND))
+__CPROVER_requires(L(layout)->m_idealEdgeLength >= 0 && L(layout)->m_idealEdgeLength <= CPL_BOUND)
+__CPROVER_ensures((i != j && __CPROVER_old(L(layout)->D[i][j]) != DBLMAX) ==>
+                  (L(layout)->D[i][j] == __CPROVER_old(L(layout)->D[i][j]) * L(layout)->m_idealEdgeLength && L(layout)->G[i][j] == 2))
+#else
+/* (that the stored value is path length x idealLength is proved by the scaled-integer variant of this job: the
+ *  floating-point product cannot be compared with a second product by any installed back end) */
+__CPROVER_ensures((i != j && __CPROVER_old(L(layout)->D[i][j]) != DBLMAX) ==> L(layout)->G[i][j] == 2)
+#endif
+/* minD only ever decreases, to a positive entry */
+__CPROVER_ensures(L(layout)->minD <= __CPROVER_old(L(layout)->minD))
+__CPROVER_ensures(L(layout)->minD != __CPROVER_old(L(layout)->minD) ==> (L(layout)->minD == L(layout)->D[i][j] && L(layout)->minD > 0.0))
+__CPROVER_assigns(L(layout)->D[i][j], L(layout)->G[i][j], L(layout)->minD)
+;
+void h_cpl_pair(void) { void *l; unsigned i, j; w_cpl_pair_body(l, i, j); VERIF_CANARY; }
+#endif
